@@ -309,12 +309,17 @@ def detectLoop (S : Suite F E) (pkg : SigningPackage F E) (bfl : List (F Ã— F)) 
       | .error e => .error e
       | .panic s => .panic s
 
+/-- `matches!(cheater_detection, CheaterDetection::FirstCheater)` -/
+def CheaterDetection.isFirst : CheaterDetection â†’ Bool
+  | .FirstCheater => true
+  | _ => false
+
 /-- `detect_cheater` (never returns `ok`) -/
 def detectCheater (S : Suite F E) (R : E) (pkp : PublicKeyPackage F E) (pkg : SigningPackage F E)
     (shares : List (F Ã— F)) (bfl : List (F Ã— F)) (mode : CheaterDetection) : Outcome F Unit :=
   match S.challenge R pkp.vk pkg.message with
   | .ok c =>
-    match detectLoop S pkg bfl R c pkp.vshares (mode = .FirstCheater) shares [] with
+    match detectLoop S pkg bfl R c pkp.vshares mode.isFirst shares [] with
     | .ok culprits =>
       if !culprits.isEmpty then .error (.InvalidSignatureShare culprits)
       else .error .InvalidSignature
@@ -345,17 +350,25 @@ def aggregateCore (S : Suite F E) (pkg : SigningPackage F E) (shares : List (F Ã
   | .error e => .error e
   | .panic s => .panic s
 
+/-- `if let Some(min) = pubkeys.min_signers() { signature_shares.len() < min as usize }` -/
+def belowMin (minSigners : Option Nat) (n : Nat) : Bool :=
+  match minSigners with
+  | some min => decide (n < min)
+  | none => false
+
+/-- the closure of the identifier-set check in `aggregate_custom` -/
+def idKnown (mode : CheaterDetection) (shares : List (F Ã— F)) (vshares : List (F Ã— E)) (id : F) :
+    Bool :=
+  match mode with
+  | .Disabled => SMap.contains shares id
+  | _ => SMap.contains shares id && SMap.contains vshares id
+
 /-- `aggregate_custom` -/
 def aggregateCustom (S : Suite F E) (pkg : SigningPackage F E) (shares : List (F Ã— F))
     (pkp : PublicKeyPackage F E) (mode : CheaterDetection) : Outcome F (Signature F E) :=
   if pkg.commitments.length â‰  shares.length then .error .UnknownIdentifier
-  else if (match pkp.minSigners with
-           | some min => decide (shares.length < min)
-           | none => false) then .error .IncorrectNumberOfShares
-  else if !((SMap.keys pkg.commitments).all fun id =>
-      match mode with
-      | .Disabled => SMap.contains shares id
-      | _ => SMap.contains shares id && SMap.contains pkp.vshares id) then
+  else if belowMin pkp.minSigners shares.length then .error .IncorrectNumberOfShares
+  else if !((SMap.keys pkg.commitments).all (idKnown mode shares pkp.vshares)) then
     .error .UnknownIdentifier
   else
     let pkp := S.preAggregate pkp
